@@ -63,6 +63,7 @@ def __nonulldata(tobs, tsim):
     """ Exclude nan data from obs and sim """
 
     idx = pd.notnull(tobs) & pd.notnull(tsim)
+    idx = idx & np.isfinite(tobs) & np.isfinite(tsim)
     if np.sum(idx) == 0:
         raise ValueError("No valid data in transformed space")
 
